@@ -556,3 +556,93 @@ def translate_stv(repo):
            "Definition gen_stv (tie_breaker : string) (zero_indexed : bool) (fuel : nat) (P : list (list Z)) (oracle : list nat) : option Z :=\n"
            "  stv_iter gen_stv_done (gen_stv_next tie_breaker) fuel (gen_stv_init zero_indexed P) oracle.\n"]
     return "\n".join(out)
+
+
+# ---------------------------------------------------------------------------------------------------------------------
+# Elicitor.elicit / Elicitor.__init__ (elicitation_utils.py): the memoising elicitor as a state-passing function
+# ---------------------------------------------------------------------------------------------------------------------
+def translate_elicitor(repo):
+    p = os.path.join(repo, "socialchoicekit", "elicitation_utils.py")
+    src = open(p).read()
+    mod = ast.parse(src)
+    cls = _find(mod.body, ast.ClassDef, "Elicitor")
+    init = _find(cls.body, ast.FunctionDef, "__init__")
+    fn = _find(cls.body, ast.FunctionDef, "elicit")
+    def selfattr(e, name): return isinstance(e, ast.Attribute) and e.attr == name and isinstance(e.value, ast.Name) and e.value.id == "self"
+    def is_name(e, n): return isinstance(e, ast.Name) and e.id == n
+    # __init__: elicitation_count = c0; memoize = memoize; if memoize: memoized_values = {}; index_fixer = a if zero_indexed else b
+    c0 = fixer = None; memo_init = False
+    for st in _body(init):
+        if isinstance(st, ast.Assign) and len(st.targets) == 1 and selfattr(st.targets[0], "elicitation_count"):
+            c0 = _intconst(st.value)
+        elif isinstance(st, ast.Assign) and len(st.targets) == 1 and selfattr(st.targets[0], "index_fixer"):
+            v = st.value
+            if isinstance(v, ast.IfExp) and is_name(v.test, "zero_indexed") and _intconst(v.body) is not None and _intconst(v.orelse) is not None:
+                fixer = "if zero_indexed then (%d) else (%d)" % (_intconst(v.body), _intconst(v.orelse))
+        elif isinstance(st, ast.If) and is_name(st.test, "memoize") and len(st.body) == 1 and isinstance(st.body[0], ast.Assign) \
+                and selfattr(st.body[0].targets[0], "memoized_values") and isinstance(st.body[0].value, ast.Dict) and not st.body[0].value.keys:
+            memo_init = True
+        elif isinstance(st, ast.Assign) and len(st.targets) == 1 and selfattr(st.targets[0], "memoize") and is_name(st.value, "memoize"):
+            pass
+        else:
+            _fail(st, "Elicitor.__init__: statement not recognised")
+    if c0 is None or fixer is None or not memo_init: _fail(init, "Elicitor.__init__: counter / index_fixer / memo table initialisation expected")
+    params = [a.arg for a in fn.args.args]
+    if params != ["self", "agent", "alternative"]: _fail(fn, "elicit(self, agent, alternative)")
+    body = _body(fn)
+    lines = []
+    key = "(agent, alternative)"
+    def keytuple(e): return isinstance(e, ast.Tuple) and len(e.elts) == 2 and is_name(e.elts[0], "agent") and is_name(e.elts[1], "alternative")
+    i = 0
+    # index shifts
+    while i < len(body) and isinstance(body[i], ast.AugAssign) and isinstance(body[i].op, ast.Add) and isinstance(body[i].target, ast.Name) \
+            and body[i].target.id in ("agent", "alternative") and selfattr(body[i].value, "index_fixer"):
+        lines.append("let %s := %s + index_fixer in" % (body[i].target.id, body[i].target.id)); i += 1
+    if i != 2: _fail(fn, "agent += self.index_fixer; alternative += self.index_fixer expected")
+    st = body[i]
+    ok = (isinstance(st, ast.If) and selfattr(st.test, "memoize") and not st.orelse and len(st.body) == 2 and isinstance(st.body[0], ast.Assign)
+          and isinstance(st.body[0].targets[0], ast.Name) and isinstance(st.body[0].value, ast.Call) and isinstance(st.body[0].value.func, ast.Attribute)
+          and st.body[0].value.func.attr == "get" and selfattr(st.body[0].value.func.value, "memoized_values") and len(st.body[0].value.args) == 1
+          and keytuple(st.body[0].value.args[0]) and isinstance(st.body[1], ast.If) and not st.body[1].orelse and len(st.body[1].body) == 1
+          and isinstance(st.body[1].body[0], ast.Return))
+    if not ok: _fail(st, "if self.memoize: v = self.memoized_values.get((agent, alternative)); if v is not None: return v  expected")
+    mv = st.body[0].targets[0].id
+    t = st.body[1].test
+    if not (isinstance(t, ast.Compare) and len(t.ops) == 1 and isinstance(t.ops[0], ast.IsNot) and is_name(t.left, mv)
+            and isinstance(t.comparators[0], ast.Constant) and t.comparators[0].value is None and is_name(st.body[1].body[0].value, mv)):
+        _fail(st.body[1], "if v is not None: return v expected")
+    i += 1
+    st = body[i]
+    if not (isinstance(st, ast.AugAssign) and isinstance(st.op, ast.Add) and selfattr(st.target, "elicitation_count") and _intconst(st.value) is not None):
+        _fail(st, "self.elicitation_count += c expected")
+    inc = _intconst(st.value); i += 1
+    st = body[i]
+    ok = (isinstance(st, ast.Assign) and isinstance(st.targets[0], ast.Name) and isinstance(st.value, ast.Call) and selfattr(st.value.func, "_elicit_impl")
+          and len(st.value.args) == 2 and is_name(st.value.args[0], "agent") and is_name(st.value.args[1], "alternative") and not st.value.keywords)
+    if not ok: _fail(st, "v = self._elicit_impl(agent, alternative) expected")
+    ev = st.targets[0].id; i += 1
+    st = body[i]
+    ok = (isinstance(st, ast.If) and selfattr(st.test, "memoize") and not st.orelse and len(st.body) == 1 and isinstance(st.body[0], ast.Assign)
+          and isinstance(st.body[0].targets[0], ast.Subscript) and selfattr(st.body[0].targets[0].value, "memoized_values") and keytuple(st.body[0].targets[0].slice)
+          and is_name(st.body[0].value, ev))
+    if not ok: _fail(st, "if self.memoize: self.memoized_values[(agent, alternative)] = v expected")
+    i += 1
+    st = body[i]
+    if not (i + 1 == len(body) and isinstance(st, ast.Return) and is_name(st.value, ev)): _fail(st, "return v expected as the last statement")
+    out = ["(* GENERATED by harness/translate.py from socialchoicekit/elicitation_utils.py (sha256 %s). Do not edit. *)" % hashlib.sha256(src.encode()).hexdigest()[:16],
+           "From Coq Require Import ZArith QArith List Bool.", "Import ListNotations.", "From SCK Require Import ElicitM.", "Local Open Scope Z_scope.", "",
+           "(* Elicitor.__init__, elicitation_utils.py:%d *)" % init.lineno,
+           "Definition gen_einit : estate := {| memo := []; cnt := %d; trace := [] |}." % c0,
+           "Definition gen_index_fixer (zero_indexed : bool) : Z := %s.\n" % fixer,
+           "(* Elicitor.elicit, elicitation_utils.py:%d; V plays _elicit_impl (the only access to the values), its calls are recorded in trace *)" % fn.lineno,
+           "Definition gen_elicit (memoize : bool) (index_fixer : Z) (V : key -> Q) (st : estate) (k0 : key) : estate * Q :=\n"
+           "  let agent := fst k0 in let alternative := snd k0 in\n  %s\n"
+           "  match (if memoize then mget (memo st) %s else None) with\n"
+           "  | Some %s => (st, %s)\n"
+           "  | None =>\n"
+           "    let st := {| memo := memo st; cnt := (cnt st + %d)%%nat; trace := trace st |} in\n"
+           "    let %s := V %s in\n"
+           "    let st := {| memo := memo st; cnt := cnt st; trace := trace st ++ [%s] |} in\n"
+           "    let st := if memoize then {| memo := (%s, %s) :: memo st; cnt := cnt st; trace := trace st |} else st in\n"
+           "    (st, %s)\n  end.\n" % ("\n  ".join(lines), key, mv, mv, inc, ev, key, key, key, ev, ev)]
+    return "\n".join(out)
